@@ -291,9 +291,19 @@ class CodecScenario:
             # a bound method forwards attribute access to its function, so unwrap() follows the function's chain
             if isinstance(a, R) and a.kind == "boundmethod" and isinstance(a.fields["func"], R) and "__wrapped__" in a.fields["func"].fields:
                 a = a.fields["func"]
+            stop = kwargs.get("stop")
             while isinstance(a, R) and "__wrapped__" in a.fields:
+                if stop is not None:
+                    # inspect.unwrap(f, stop=pred): pred is asked about every object of the chain, a true answer ends the walk there
+                    verdict = self.ri.call_value(stop, call, [a], {}, st)
+                    if not isinstance(verdict, K):
+                        return None
+                    if verdict.v:
+                        break
                 a = a.fields["__wrapped__"]
             return a
+        if d == "hasattr" and len(args) == 2 and isinstance(args[1], K) and isinstance(args[0], R):
+            return K(args[1].v in args[0].fields)
         if d == "isinstance" and len(args) == 2:
             return self._isinstance(args[0], args[1])
         if d in ("inspect.ismodule", "inspect.isclass", "inspect.isfunction", "inspect.isbuiltin", "inspect.ismethod", "inspect.isroutine") and len(args) == 1 and isinstance(args[0], (R, K)):
